@@ -72,7 +72,7 @@ def refinement_check(tier, wd, out):
                     f"  Variant = \"{variant}\"\nINVARIANTS Consistent MarkOK ResultOK\nCHECK_DEADLOCK FALSE\n")
         return p
     quick = tier == "quick"
-    runs = [(2, [0, 1], 2, 1)] if quick else [(2, [0, 1, 2], 2, 2), (3, [0, 1], 2, 1)]
+    runs = [(2, [0, 1], 2, 1)] if quick else [(2, [0, 1, 2], 2, 2), (3, [0, 1], 2, 0)]   # (depth 3 without removals: 2.6e5 states, 4e7 transitions)
     states = 0
     for d, vals, mb, mr in runs:
         res = tlc_mc("TreeImpl", cfg(f"MC_TreeImpl_d{d}", "none", d, vals, mb, mr), f"mc-treeimpl-{out.prop}", workers=8, timeout=3000, coverage=False)
